@@ -1045,8 +1045,16 @@ int tls_record_get_handshake_certificate(const uint8_t *record, uint8_t *certs, 
 			return -1;
 		}
 		if (x509_cert_from_der(&cert, &certlen, &a, &alen) != 1
-			|| asn1_length_is_zero(alen) != 1
-			|| x509_cert_to_der(cert, certlen, &certs, certslen) != 1) {
+			|| asn1_length_is_zero(alen) != 1) {
+			error_print();
+			return -1;
+		}
+		// certs is one of the TLS_MAX_CERTIFICATES_SIZE byte buffers of TLS_CONNECT
+		if (certlen > TLS_MAX_CERTIFICATES_SIZE - *certslen) {
+			error_print();
+			return -1;
+		}
+		if (x509_cert_to_der(cert, certlen, &certs, certslen) != 1) {
 			error_print();
 			return -1;
 		}
